@@ -716,48 +716,39 @@ func (is *indexSearch) seriesByINExprIterator(
 	singleSeries bool,
 	lhsPriorityExecute, rhsPriorityExecute bool,
 ) (index.SeriesIDIterator, error) {
-	executeSide := func(side influxql.Expr) (index.SeriesIDIterator, *influxql.SetLiteral, *influxql.VarRef, error) {
-		itr, err := is.seriesByExprIterator(name, side, tsids, singleSeries)
-		if err != nil {
-			return nil, nil, nil, err
+	// One operand of the AND is `tag IN (...)` / `tag NOT IN (...)` with a large value set: it is
+	// not looked up value by value. The other operand is evaluated through the index and its
+	// series are pruned with the set.
+	inSide, otherSide := expr.LHS, expr.RHS
+	if !lhsPriorityExecute {
+		if !rhsPriorityExecute {
+			return nil, errors.New("no operand to prune with")
 		}
-
-		be, ok := side.(*influxql.BinaryExpr)
-		if !ok {
-			return nil, nil, nil, fmt.Errorf("side is not *influxql.BinaryExpr, got %T", side)
-		}
-		key, okL := be.LHS.(*influxql.VarRef)
-		set, okR := be.RHS.(*influxql.SetLiteral)
-		if !okL || !okR {
-			return nil, nil, nil, errors.New("fail to find lhs: VarRef, rhs: SetLiteral, from binary expr")
-		}
-		return itr, set, key, nil
+		inSide, otherSide = expr.RHS, expr.LHS
+	}
+	be, ok := inSide.(*influxql.BinaryExpr)
+	if !ok {
+		return nil, fmt.Errorf("side is not *influxql.BinaryExpr, got %T", inSide)
+	}
+	tagKey, okL := be.LHS.(*influxql.VarRef)
+	set, okR := be.RHS.(*influxql.SetLiteral)
+	if !okL || !okR {
+		return nil, errors.New("fail to find lhs: VarRef, rhs: SetLiteral, from binary expr")
 	}
 
-	var (
-		itr    index.SeriesIDIterator
-		set    *influxql.SetLiteral
-		tagKey *influxql.VarRef
-		err    error
-	)
-
-	switch {
-	case lhsPriorityExecute:
-		itr, set, tagKey, err = executeSide(expr.LHS)
-		if err != nil {
-			return nil, err
-		}
-	case rhsPriorityExecute:
-		itr, set, tagKey, err = executeSide(expr.RHS)
-		if err != nil {
-			return nil, err
-		}
-	}
-
-	if err = is.doPruneWithSet(itr.Ids(), set.Vals, tagKey.Val, expr.Op == influxql.IN); err != nil {
+	itr, err := is.seriesByExprIterator(name, otherSide, tsids, singleSeries)
+	if err != nil {
 		return nil, err
 	}
-	return itr, nil
+	if itr == nil {
+		return nil, errors.New("no iterator for the operand to prune")
+	}
+	ids := itr.Ids().Clone()
+	if err = is.doPruneWithSet(ids, set.Vals, tagKey.Val, be.Op == influxql.NOTIN); err != nil {
+		return nil, err
+	}
+	// the intersection keeps the field filters the other operand attached to its series
+	return index.IntersectSeriesIDIterators(itr, index.NewSeriesIDSetIterator(index.NewSeriesIDSetWithSet(ids))), nil
 }
 
 func (is *indexSearch) seriesByExprIterator(name []byte, expr influxql.Expr, tsids **uint64set.Set, singleSeries bool) (index.SeriesIDIterator, error) {
@@ -772,7 +763,11 @@ func (is *indexSearch) seriesByExprIterator(name []byte, expr influxql.Expr, tsi
 			if expr.Op == influxql.AND {
 				lhsPriorityExecute, rhsPriorityExecute := chooseINPriority(expr)
 				if !singleSeries && (lhsPriorityExecute || rhsPriorityExecute) {
-					return is.seriesByINExprIterator(name, expr, tsids, singleSeries, lhsPriorityExecute, rhsPriorityExecute)
+					// if the other operand cannot be evaluated on its own (a field expression, an
+					// error) the general evaluation below handles the IN like any other operand
+					if itr, err := is.seriesByINExprIterator(name, expr, tsids, singleSeries, lhsPriorityExecute, rhsPriorityExecute); err == nil {
+						return itr, nil
+					}
 				}
 			}
 			// Fast path for all and expr.
